@@ -98,6 +98,22 @@ static void raw_request(const MethodRow& anyrow, const std::vector<MethodRow*>& 
     if (!wire.rep.empty()) rep().violation(fmt("C14:reply-for-invalid-request:%s", ds.cat != Cat::OK ? "selector" : target ? "arguments" : "unbound"), fmt("%s (%s): %zu reply bytes were sent", who.c_str(), what.c_str(), wire.rep.size()), cd);
     if (!st && ds.cat == Cat::OK && !target && st.error() != nop::ErrorStatus::InvalidInterfaceMethod) rep().violation("C14:unbound-status", fmt("%s (%s): unbound selector gave '%s'", who.c_str(), what.c_str(), errname(st.error())), cd);
   }
+  // the same request as one datagram: the shipped BufferReader over exactly the request bytes, the reply into a BufferWriter of exactly the reply's size.
+  // Same status, same handler run with the same arguments, same reply bytes; a hostile length must come back as a status, not as an exception.
+  {
+    const size_t cap = st ? wire.rep.size() : 4096; ExactBuf rq(req.data(), req.size()); ExactBuf rp; rp.alloc(cap);
+    size_t log1 = hlog().size(); bool threw = false; std::string ex; nop::Status<void> st2; size_t replied = 0;
+    try { BufServer bs(rq.p, req.size(), rp.p, cap); st2 = anyrow.serve_buf(bs); replied = bs.ser.writer().size(); } catch (const std::exception& e) { threw = true; ex = e.what(); }
+    size_t nlog2 = hlog().size() - log1; rep().count("c14_raw_requests_through_BufferReader");
+    if (threw) rep().violation("C14:buffer-transport:exception", fmt("%s (%s): dispatching the request from a BufferReader threw %s instead of returning a status", who.c_str(), what.c_str(), ex.c_str()), cd);
+    else {
+      if ((bool)st2 != (bool)st || (!st && st2.error() != st.error())) rep().violation("C14:buffer-transport:status", fmt("%s (%s): status '%s' from a BufferReader, '%s' from the reference transport", who.c_str(), what.c_str(), st2 ? "ok" : errname(st2.error()), st ? "ok" : errname(st.error())), cd);
+      if (nlog2 != nlog) rep().violation("C14:buffer-transport:handler-invocations", fmt("%s (%s): %zu handler runs from a BufferReader, %zu from the reference transport", who.c_str(), what.c_str(), nlog2, nlog), cd);
+      else if (nlog == 1 && (hlog().back().method != hlog()[log0].method || hlog().back().args.size() != hlog()[log0].args.size())) rep().violation("C14:buffer-transport:wrong-handler", fmt("%s (%s): another handler ran", who.c_str(), what.c_str()), cd);
+      if (st && st2 && (replied != wire.rep.size() || memcmp(rp.p, wire.rep.data(), replied) != 0)) rep().violation("C14:buffer-transport:reply", fmt("%s (%s): the reply written to a BufferWriter differs from the reference transport's", who.c_str(), what.c_str()), cd);
+      if (!st2 && replied != 0) rep().violation("C14:buffer-transport:reply-for-invalid-request", fmt("%s (%s): %zu reply bytes written for a failed dispatch", who.c_str(), what.c_str(), replied), cd);
+    }
+  }
 }
 
 // ---- re-entrant dispatch: a handler that, while it runs, causes another request for the same method to be dispatched on the same thread
